@@ -409,6 +409,13 @@ impl<'gc, 'r> Env<'gc, 'r> {
                 blocks = obs::capture_off();
                 r = Ref::P(g);
             }
+            Kind::NT => {
+                let v = NtNode { tok: Tok::new(arena, id), probe: Probe { arena, id }, pattern: pattern_for(id) };
+                obs::capture_on();
+                let g = Gc::new(mc, v);
+                blocks = obs::capture_off();
+                r = Ref::NT(g);
+            }
             Kind::DB => {
                 let v = DynBox { tok: Tok::new(arena, id), probe: Probe { arena, id }, inner: Box::new(HolderImpl { w: rw[0], s: rs[0] }), pattern: pattern_for(id) };
                 obs::capture_on();
